@@ -6,9 +6,11 @@ import RtenVerif.Generated.OnnxSchema
 
 Request: `pb <mode> <hex|->` with mode ∈ {buf, file, sniff}.
 * `buf` / `file`: `ModelProto::parse_buf` / `parse_file` ↦ `ok m=<messages> s=<strings> b=<string bytes>
-  n=<numbers> x=<wrapping sum of number bits>` (digest of the decoded tree, singular fields keep the
-  last occurrence) or `err:<ErrorKind>`.
-* `sniff`: `is_onnx_model(ValueReader::from_buf(..))` ↦ `sniff=<0|1>`.
+  n=<numbers> x=<wrapping sum of number bits> st=<steps>` (digest of the decoded tree, singular fields
+  keep the last occurrence) or `err:<ErrorKind> st=<steps>`.
+* `sniff`: `is_onnx_model(ValueReader::from_buf(..))` ↦ `sniff=<0|1> st=<steps>`.
+`st` is the work counter of the instrumented decoder `parseS` (primitive reads + blob bytes), compared
+with the real decoder's `rten_onnx::verif::DECODE_STEPS`.
 -/
 namespace RtenVerif.Driver.C38
 open RtenVerif.Driver RtenVerif.Protobuf RtenVerif.Generated.OnnxSchema
@@ -71,17 +73,19 @@ def handle (line : String) : String :=
     | none => "bad-request"
     | some d =>
       if mode == "sniff" then
-        match parse schema d idSlimModelProto with
-        | .ok (fs, _) => s!"sniff={b01 (hasField 1 fs && hasField 7 fs)}"
+        let c := parseS schema d idSlimModelProto
+        match c.res with
+        | .ok (fs, _) => s!"sniff={b01 (hasField 1 fs && hasField 7 fs)} st={c.steps}"
         | .error .wrap => "model-wrap"
         | .error .fuel => "model-fuel"
-        | .error _ => "sniff=0"
+        | .error _ => s!"sniff=0 st={c.steps}"
       else if mode == "buf" || mode == "file" then
-        match parse schema d idModelProto with
+        let c := parseS schema d idModelProto
+        match c.res with
         | .ok (fs, _) =>
           let g := digestMsg schema idModelProto fs {}
-          s!"ok m={g.m} s={g.s} b={g.b} n={g.n} x={g.x}"
-        | .error e => s!"err:{e}"
+          s!"ok m={g.m} s={g.s} b={g.b} n={g.n} x={g.x} st={c.steps}"
+        | .error e => s!"err:{e} st={c.steps}"
       else "bad-request"
   | _ => "bad-request"
 
